@@ -16,21 +16,25 @@ NOTE = ("Trusted: go/ssa translation and the engine's Go semantics (A-SSA), solv
         "history-induction meta-argument; all listed per run in evidence 'assumptions'. Functions of the property's anchor files that "
         "are not yet under contract are outside the claim: %s")
 CLAIMED = {
- "C01": (GENERIC % "HashMap and HashBidiMap (Put/Get/Remove/Clear/Size/Keys/Values as a finite map; Keys/Values duplicate-free enumerations).",
-         NOTE % "TreeMap, LinkedHashMap, RedBlackTree, AVLTree, BTree, TreeBidiMap.", "DESIGN.md §4 C01"),
- "C03": (GENERIC % "ArrayList (all operations except Sort's permutation clause) and DoublyLinkedList (Add/Append/Get/Remove/Clear/Values/IndexOf/Size/Empty with a ghost node sequence).",
-         NOTE % "SinglyLinkedList; DoublyLinkedList Prepend/Insert/Set/Swap/Sort/Contains.", "DESIGN.md §4 C03"),
- "C04": (GENERIC % "HashSet (Add/Remove/Contains/Clear/Size/Values over the Go-map model).", NOTE % "TreeSet, LinkedHashSet.", "DESIGN.md §4 C04"),
- "C05": (GENERIC % "CircularBuffer (all capacities c>=1 and all wrap-around positions symbolically), ArrayStack, ArrayQueue.",
-         NOTE % "LinkedListStack, LinkedListQueue.", "DESIGN.md §4 C05"),
+ "C01": (GENERIC % "HashMap, HashBidiMap, LinkedHashMap, TreeMap (by delegation), RedBlackTree (Get/Put/Clear/Keys/Values verified against ghost rank/sequence; Remove contract assumed), AVLTree (Get/Clear/Keys/Values; Put/Remove contracts not yet stated), TreeBidiMap except Put.",
+         NOTE % "BTree; RedBlackTree.Remove, AVL Put/Remove, TreeBidiMap.Put (stated or planned, not verified).", "DESIGN.md §4 C01"),
+ "C02": (GENERIC % "RedBlackTree and AVLTree navigation (Left/Right/Floor/Ceiling/Get over a ghost in-order node sequence with strictly ascending keys as invariant), their iterators and Keys/Values, RedBlackTree.Put preserving order, TreeMap (Min/Max/Floor/Ceiling/Keys/Values), TreeSet.Values, TreeBidiMap Keys/Values.",
+         NOTE % "BTree; AVL and B-tree mutators and RedBlackTree.Remove (contracts assumed: order after those operations is not yet proved).", "DESIGN.md §4 C02"),
+ "C03": (GENERIC % "ArrayList, SinglyLinkedList and DoublyLinkedList: every operation named by the statement (Add/Append/Prepend/Insert/Remove/Set/Swap/Sort/Clear/Get/IndexOf/Contains/Size/Values) against one sequence specification, linked lists through a ghost node sequence.",
+         NOTE % "ArrayList.Sort permutation clause (sortedness only through the assumed slices.SortFunc contract).", "DESIGN.md §4 C03"),
+ "C04": (GENERIC % "HashSet, LinkedHashSet, TreeSet: Add/Remove/Contains/Clear/Size/Values.", NOTE % "nothing of the three sets besides RedBlackTree.Remove underneath TreeSet.Remove (contract assumed).", "DESIGN.md §4 C04"),
+ "C05": (GENERIC % "CircularBuffer (all capacities c>=1 and all wrap-around positions symbolically), ArrayStack, ArrayQueue, LinkedListStack, LinkedListQueue.",
+         NOTE % "none of the five containers.", "DESIGN.md §4 C05"),
  "C06": (GENERIC % "BinaryHeap Push (single and bulk/Floyd heapify), Pop, Peek, Clear with heap order as invariant, minimality by an induction lemma, and the multiset clause through ghost permutations; PriorityQueue by delegation.",
          NOTE % "heap Values()/iterator level order; FromJSON.", "DESIGN.md §4 C06"),
- "C08": (GENERIC % "index-cursor iterators of ArrayList, ArrayStack, ArrayQueue, CircularBuffer: Next/Prev/Begin/End/First/Last/Index/Value/NextTo/PrevTo against the cursor specification over positions -1..n.",
-         NOTE % "the remaining 14 iterator types.", "DESIGN.md §4 C08"),
- "C10": (GENERIC % "HashBidiMap: the two inner maps are mutual inverses as a representation invariant maintained by Put/Remove/Clear; Get/GetKey agree.",
-         NOTE % "TreeBidiMap.", "DESIGN.md §4 C10"),
- "C13": (GENERIC % "HashSet Intersection/Union/Difference: exact membership, operands unchanged (frame), result freshly allocated; identical-operand case included.",
-         NOTE % "TreeSet, LinkedHashSet set algebra.", "DESIGN.md §4 C13"),
+ "C08": (GENERIC % "16 of the 18 iterator types (array list/stack/queue, ring, both linked lists, linked-list stack/queue, linked hash map/set, red-black tree, AVL tree, tree map/set/bidimap, and the cursor part of the heap iterator is pending): Next/Prev/Begin/End/First/Last/Index/Key/Value/NextTo/PrevTo against the cursor specification over positions -1..n.",
+         NOTE % "B-tree iterator, binary heap / priority queue iterators.", "DESIGN.md §4 C08"),
+ "C09": (GENERIC % "LinkedHashMap and LinkedHashSet: the key sequence of the ordering list (ghost rank per key) changes exactly as the statement says under Put/Add/Remove/Clear; Keys/Values/iterator read that sequence.",
+         NOTE % "ToJSON order (C11), Each (C14).", "DESIGN.md §4 C09"),
+ "C10": (GENERIC % "HashBidiMap (all operations) and TreeBidiMap (Get/GetKey/Remove/Clear/Size/Keys/Values): the two inner maps are mutual inverses as a representation invariant.",
+         NOTE % "TreeBidiMap.Put (stated, not verified).", "DESIGN.md §4 C10"),
+ "C13": (GENERIC % "HashSet, LinkedHashSet and TreeSet Intersection/Union/Difference: exact membership, operands unchanged (frame), result freshly allocated with the operands' comparator; identical-operand case included.",
+         NOTE % "none of the nine operations.", "DESIGN.md §4 C13"),
  "C15": (GENERIC % "Size/Empty/Values/Clear agreement for the containers under contract so far (ring, array list/stack/queue, hash map/set/bidimap, heap, priority queue, doubly linked list).",
          NOTE % "String(); the tree-backed and linked-hash containers.", "DESIGN.md §4 C15"),
  "C16": (GENERIC % "freshness of returned slices and ownership of stored slices (Owned two-state predicate) for ArrayList and its wrappers, ring, hash containers; argument slices are only read (frame).",
